@@ -330,7 +330,14 @@ class Engine:
         self.stats[op] += 0
         if op == 'dbgvalue': return None
         if op == 'alloca':
-            return AV(frozenset(), frozenset([(('A', ctx, fn, i['id']), 0)]))
+            reg = ('A', ctx, fn, i['id'])
+            # policy: named members of local objects of well-known types are public by their meaning (e.g. the byte count of a hash context)
+            pf = getattr(self.policy, 'public_fields', None)
+            if pf:
+                for tyname, offs in pf.items():
+                    if i.get('aty', '').startswith('%' + tyname):
+                        for o_ in offs: self.mem.public.add((reg, o_))
+            return AV(frozenset(), frozenset([(reg, 0)]))
         if op == 'getelementptr':
             base = V(i['ops'][0]); labels = set(base.labels)
             if i['off'] is None: return AV(frozenset(labels), frozenset((r, None) for r, _ in base.ptrs))
